@@ -118,6 +118,10 @@ func NewPositionRange(lines []string, val *yaml.Node, minColumn int) (offsets Po
 		if lineIndex == val.Line {
 			// yaml.v3 counts columns in characters, lines are indexed by bytes.
 			columnIndex = byteColumn(lines[lineIndex-1], columnIndex)
+			if val.Anchor != "" {
+				// An anchored node starts at its anchor, the scalar follows it.
+				columnIndex = skipBlanks(lines[lineIndex-1], columnIndex+len("&")+len(val.Anchor))
+			}
 		}
 		columnIndex = min(len(lines[lineIndex-1]), columnIndex)
 
@@ -170,6 +174,14 @@ func byteColumn(line string, column int) int {
 		column--
 	}
 	return len(line) + column
+}
+
+// skipBlanks returns the first 1-indexed column at or after column that is not a space or a tab.
+func skipBlanks(line string, column int) int {
+	for column >= 1 && column <= len(line) && (line[column-1] == ' ' || line[column-1] == '\t') {
+		column++
+	}
+	return column
 }
 
 func countLeadingSpace(line string) (i int) {
